@@ -613,7 +613,11 @@ class Parser:
             self.eat(')')
             body = self.stmt()
             return ('while', c, body, ln)
-        for kw in ('do', 'continue', 'try', 'throw'):
+        if self.at('continue'):
+            self.i += 1
+            self.eat(';')
+            return ('continue', ln)
+        for kw in ('do', 'try', 'throw'):
             if self.at(kw):
                 raise self.err(f'`{kw}` statement (outside the subset)')
         # `S name;` for a configured struct type S
@@ -657,6 +661,8 @@ class Parser:
         self.eat(';')
         if e[0] in ('preinc', 'postinc'):
             return ('assign', '+=' if e[1] == '++' else '-=', e[2], ('int', 1), ln)
+        if e[0] == 'mcall' and e[2] == 'push_back' and len(e[3]) == 1:
+            return ('push', e, ln)
         raise self.err(f'expression statement without effect in the subset: {e[0]}')
 
 
@@ -867,7 +873,7 @@ class Translator:
         if isinstance(x, tuple):
             if x and x[0] == 'mcall':
                 key = self._path(x[1]) + '.' + x[2] + '()'
-                if key in (tr.get('reads') or []) or key in (tr.get('writes') or []):
+                if key in (tr.get('reads') or []) or key in (tr.get('writes') or []) or key in (tr.get('pushes') or []):
                     return True
             if x and x[0] == 'call' and x[1].split('::')[-1] in self.known and self.known[x[1].split('::')[-1]].get('trace'):
                 return True
@@ -1366,6 +1372,24 @@ class Translator:
         return ('for', 'int', v, ('bin', '-', ('var', v), ('int', 1)), ('bin', '>=', ('var', v), bound),
                 [('preinc', '--', ('var', v))], ('block', tail, ln), ln, 'rebind')
 
+    def has_continue(self, s):
+        if s[0] == 'continue':
+            return True
+        if s[0] == 'block':
+            return any(self.has_continue(x) for x in s[1])
+        if s[0] == 'if':
+            return self.has_continue(s[2]) or (s[3] is not None and self.has_continue(s[3]))
+        return False                                    # an inner loop owns its own `continue`s
+
+    def subst_continue(self, s, lab):
+        if s[0] == 'continue':
+            return ('goto', lab, s[-1])
+        if s[0] == 'block':
+            return ('block', [self.subst_continue(x, lab) for x in s[1]], s[-1])
+        if s[0] == 'if':
+            return ('if', s[1], self.subst_continue(s[2], lab), None if s[3] is None else self.subst_continue(s[3], lab), s[-1])
+        return s
+
     # -- `goto L` to a label at the END of an enclosing block (`… goto L; … L: ; }` — "leave the rest of this block")
     def may_goto(self, x, lab):
         if isinstance(x, tuple):
@@ -1452,6 +1476,17 @@ class Translator:
         if kind == 'ignored':
             self.ignored.append(f'line {ln} `{s[1]}`')
             return k(env, ind)
+        if kind == 'continue':
+            raise self.err(ln, '`continue` outside the body of a translated `for` loop (outside the subset)')
+        if kind == 'push':
+            tr = self.spec.get('trace') or {}
+            key = self._path(s[1][1]) + '.push_back()'
+            if key not in (tr.get('pushes') or []):
+                raise self.err(ln, f'`{key}` is not a configured recorded container (outside the subset)')
+            if self.has_events(s[1][3]) or self.reads_in(s[1][3]):
+                raise self.err(ln, 'trace mode: a recorded value must read no array')
+            val = self.coerce(self.expr(s[1][3][0], env, ln), 'int', ln)
+            return f'{pad}let acc_ : List ({self.etype()}) := acc_ ++ [{val}]\n' + k(env, ind)
         if kind == 'goto':
             raise self.err(ln, f'`goto {s[1]}`: the label is not at the end of an enclosing block of the function (outside the subset)')
         if kind == 'label':
@@ -1537,6 +1572,18 @@ class Translator:
             # be false and the statement must do nothing but leave a block (the trace is then the longest one: a superset)
             tr = self.spec['trace']
             pre = self.trace_pre([s[1]], env, ln, pad)
+            if tr.get('oracle') and tr['oracle'][1] == 'truth':
+                name, _, n = tr['oracle']
+                c, neg = s[1], False
+                while c[0] == 'un' and c[1] == '!':
+                    c, neg = c[2], not neg
+                if not self.read_key(c) or len(c[3]) != n or self.reads_in(list(c[3])):
+                    raise self.err(ln, 'trace mode: a condition on an element value must be `read` / `!read`')
+                ix = [self.atom(self.coerce(self.expr(a, env, ln), 'int', ln)) for a in c[3]]
+                test = f'({name} {" ".join(ix)} = true)'
+                if neg:
+                    test = f'¬ {test}'
+                return pre + self.stmt(('if', ('lean', test), s[2], s[3], ln), env, k, ind)
             if tr.get('oracle'):
                 name, op, n = tr['oracle']
                 c = s[1]
@@ -1678,6 +1725,10 @@ class Translator:
         else:
             raise self.err(ln, f'loop condition `{op}` with step {"++" if up else "--"} (outside the subset)')
         ix = (f'{lo} + (k_ : Int)' if lo != '0' else '(k_ : Int)') if up else f'{lo} - (k_ : Int)'
+        if self.has_continue(body):
+            # `continue` = jump to the end of the body of the innermost enclosing loop
+            lab = 'continue_' + v
+            body = ('block', [self.subst_continue(body, lab), ('label', lab, ln)], ln)
         if _stmts_return([body]):
             raise self.err(ln, '`return`/`break` inside a loop body (outside the subset)')
         vs = self.assigned([body], env)
@@ -1959,6 +2010,16 @@ TARGETS += [
          doc='the assignment `s = ((f[q*stride] + square(BaseType(q))) - (f[v[k]*stride] + square(BaseType(v[k])))) / 2. / (q - v[k]);` of '
              '`dist_transform` (abscissa where the parabolas rooted at `v[k]` and `q` meet), polymorphic in the scalar type; `fq`, `fv` stand '
              'for the two samples `f[q*stride]`, `f[v[k]*stride]`, `vk` for `v[k]`; the last parameter is the old value of `s` (unused)'),
+    dict(key='fast_positions', file='mahotas/_morph.cpp', func='fast_binary_dilate_erode_2d', pick='plain', lean='fast_positions',
+         params=[], raw_params=True, c_param_names=['res', 'array', 'Bc', 'is_erosion'],
+         extra_params=[('Nx', 'int'), ('bdims', 'list')], env_kinds={'Nx': 'int'}, ret_kind='int',
+         select=dict(kind='from-decl', var='By', count=6), result='acc_',
+         skip_prefixes=[['std', '::', 'vector']], accessors={'Bc.dim()': ('bdims', 'int')},
+         trace=dict(reads=[], silent_reads=['Bc.at()'], pushes=['positions.push_back()'], etype='Int', oracle=('bc_', 'truth', 2)),
+         driver_call='fast_positions (fun i j => decide ((a.ints "l1").getD (Int.toNat (i * ((a.ints "l0").getD 1 0) + j)) 0 ≠ 0)) (x 0) (a.ints "l0")',
+         doc='TRACE translation of the statements of `fast_binary_dilate_erode_2d` that build the offset list (`By`, `Bx`, `Cy`, `Cx` and the '
+             'two nested loops): the value is the content of `positions` (`dy`, `dx`, `dy`, `dx`, …) in push order; `bc_ y x` stands for '
+             '`Bc.at(y, x)`, `Bc.dim(d)` reads the list `bdims`, `Nx` is `array.dim(1)`; `continue` is a jump to the end of the loop body'),
     dict(key='rank_currank', file='mahotas/_convolve.cpp', func='rank_filter', pick='generic', tparams=['T'], lean='rank_currank',
          params=[], raw_params=True, c_param_names=['res', 'array', 'Bc', 'rank', 'mode', 'cval'],
          extra_params=[('n', 'int'), ('N2', 'int'), ('rank', 'int')], env_kinds={'n': 'int', 'N2': 'int', 'rank': 'int'},
@@ -2339,6 +2400,7 @@ def extracted_sources(repo: Path) -> dict:
             if isinstance(tg.get('select'), dict):          # the selected statements, as they stand in the source
                 pr = Parser(f.body_toks, tg['key'], tparams={n: 'T' for n in tg.get('tparams', [])})
                 pr.float_types, pr.allow_float = set(tg.get('float') or []), bool(tg.get('float'))
+                pr.skip_prefixes = [tuple(x) for x in (tg.get('skip_prefixes') or [])]
                 select_stmts(pr, tg['key'], tg['select'])
                 out[tg['key']]['slice'] = f.src[pr.sel_span[0]:pr.sel_span[1]]
                 helpers = []                                # functions of the same file the selected statements call
@@ -2443,7 +2505,7 @@ def generate(repo: Path, outdir: Path) -> dict:
             lean=tg['lean'], params=[kd for _, kd in allp], ret=tg['ret_kind'],
             dt=('T-as-arg' if tg.get('template_call') else uses_dt), trace=bool(tg.get('trace')))
         entries.append((tg['lean'], [kd for _, kd in allp], uses_dt,
-                        'opt' if tg.get('flag_const') else (('trace3' if tg['trace'].get('etype') else 'trace') if tg.get('trace')
+                        'opt' if tg.get('flag_const') else ({'Int': 'list', 'Int × Int × Int': 'trace3'}.get(tg['trace'].get('etype'), 'trace') if tg.get('trace')
                                                             else ('list' if tg['ret_kind'] == 'list' else ('fbits' if tg['ret_kind'] == 'F' else ''))),
                         tg.get('driver_call')))
         names[blk] = ['Mahotas.Generated.C.' + n for n in defined_names('\n'.join(lines))]
